@@ -986,10 +986,17 @@ def mon_C14(script, outs):
         k0 = [k for k, (_i, t, _c, _y) in enumerate(rows) if t[0] == "time"]
         # the step scripts have the shape: new; proc lo ...; time t; proc hi ...  (anything else, e.g. a
         # shrunk script, is not a step experiment)
-        shape_ok = len(k0) == 1 and k0[0] >= 10 and all(t[0] == "proc" and unhx(t[1]) == f32(lo) for (_i, t, _c, _y) in rows[1:k0[0]]) \
-            and all(t[0] == "proc" and unhx(t[1]) == f32(hi) for (_i, t, _c, _y) in rows[k0[0] + 1:])
-        if shape_ok and tt * fs >= 100 and abs(rows[k0[0] - 1][3] - f32(lo)) <= 1e-6 * max(1.0, abs(lo)):
-            after = rows[k0[0] + 1:]
+        # optionally preceded by an explicit "glide off" (a time below two samples) right after new
+        start, kt = 1, None
+        if len(k0) == 1:
+            kt = k0[0]
+        elif len(k0) == 2 and k0[0] == 1 and abs(unhx(rows[1][1][1])) < 2.0 / fs:
+            start, kt = 2, k0[1]
+        shape_ok = kt is not None and kt - start >= 10 \
+            and all(t[0] == "proc" and unhx(t[1]) == f32(lo) for (_i, t, _c, _y) in rows[start:kt]) \
+            and all(t[0] == "proc" and unhx(t[1]) == f32(hi) for (_i, t, _c, _y) in rows[kt + 1:])
+        if shape_ok and tt * fs >= 100 and abs(rows[kt - 1][3] - f32(lo)) <= 1e-6 * max(1.0, abs(lo)):
+            after = rows[kt + 1:]
             ys = [y for (_i, _t, _c, y) in after]
             r = rho(after[-1][2][0]) * max(abs(lo), abs(hi)) / abs(hi - lo) if after else 0.0
             n = int(math.ceil(tt * fs))
